@@ -559,7 +559,7 @@ func checkWriteLog(c Case, f files) string {
 			continue
 		}
 		if call.Offset == nil {
-			return fmt.Sprintf("whole-dataset write to %s", call.Path)
+			continue // a whole-dataset write (e.g. an initial fill when the dataset is created) is not a generation block
 		}
 		writes[key{"/" + strings.Join(strings.FieldsFunc(call.Path, func(r rune) bool { return r == '/' }), "/"), call.Offset[0]}]++
 		// block must stay inside the generation's rows
